@@ -397,6 +397,19 @@ func generate(thorough bool, emit func(kase)) {
 			emit(kase{Family: "retry-hello", Desc: desc, Keys: true, First: first, Ops: append(slices.Clone(pre), op{Dir: 'c', Data: rec})})
 		}
 		add("valid", tlsref.Record(22, 0x0303, msg2))
+		// records of every content type and of length 0/1/2 that arrive BETWEEN the HelloRetryRequest and the second hello
+		// (each read separately, then the hello), and the second hello framed with a first fragment of 0..4 bytes
+		for _, ct := range []byte{20, 21, 22, 23, 24, 0, 255} {
+			for _, l := range []int{0, 1, 2} {
+				between := tlsref.Record(ct, 0x0303, bytes.Repeat([]byte{1}, l))
+				emit(kase{Family: "retry-hello-after-small-record", Desc: fmt.Sprintf("type%d len%d", ct, l), Keys: true, First: first,
+					Ops: append(slices.Clone(pre), op{Dir: 'c', Data: between}, op{Dir: 'c', Data: tlsref.Record(22, 0x0303, msg2)})})
+			}
+		}
+		for cut := 0; cut <= 4; cut++ {
+			emit(kase{Family: "retry-hello-fragmented", Desc: fmt.Sprintf("first fragment %d bytes", cut), Keys: true, First: first,
+				Ops: append(slices.Clone(pre), op{Dir: 'c', Data: tlsref.Record(22, 0x0303, msg2[:cut])}, op{Dir: 'c', Data: tlsref.Record(22, 0x0303, msg2[cut:])})})
+		}
 		for cut := 0; cut <= len(msg2); cut++ {
 			if !thorough && cut > 80 && cut < len(msg2)-80 && cut%4 != 0 {
 				continue
@@ -624,7 +637,7 @@ func Worker(tier string, shard, nshards int) {
 
 // Run is the parent: spawns the workers and aggregates.
 func Run(r *ev.Run) {
-	r.Rule("grammar-bounded exhaustive enumeration (E1) in 16 memory-capped (ulimit -v 4 GiB) single-threaded worker processes with a 20 s hang watchdog: (a) every sequence of <=2 (thorough 3) alternatives out of 47 well-/ill-formed variants of the extensions the parser interprets (SNI, ALPN, supported_versions, ech_outer_extensions, ECH: types 0/1/2, empty enc, empty/short payload, every header truncation, trailing bytes) in the outer hello with/without keys and inside a SEALED inner hello; (b) reference lists (missing, repeated, 127 entries, naming ECH); (c) every length field of plain/sealed/garbage hellos set to {0, true-1, true+1, max} and all pairs of fields; the message cut at every byte; (d) first record of every content type x length {0,1,5}, declared lengths up to 65535; (e) after an accepted / passed-through hello: every record over 7 content types x 5 lengths in either direction, all ordered pairs, ServerHello/HRR cut at every byte, length lies, split at every 3rd offset, illegal declared lengths written in 40 kB pieces, 3000 tiny records per call; (f) after HRR: second hello cut at every byte, every length field mutated, extra extensions. Oracles: no panic (recovered), NewConn consumes at most 6x(64 KiB+4) bytes plus one record of the first flight before it decides, no call returns 0,nil without consulting the transport, bytes allocated by the calls <= 88x the bytes moved + 12 records per call + 1 record per input record (TotalAlloc delta), heap retained by the Conn after the calls <= 8 x max(record, hello up to 64 KiB) + 16 KiB (measured with forced GC, GOMAXPROCS=1, harness-held bytes subtracted, confirmed by re-execution), no call longer than 20 s. distinct = distinct case indexes with distinct bytes")
+	r.Rule("grammar-bounded exhaustive enumeration (E1) in 16 memory-capped (ulimit -v 4 GiB) single-threaded worker processes with a 20 s hang watchdog: (a) every sequence of <=2 (thorough 3) alternatives out of 47 well-/ill-formed variants of the extensions the parser interprets (SNI, ALPN, supported_versions, ech_outer_extensions, ECH: types 0/1/2, empty enc, empty/short payload, every header truncation, trailing bytes) in the outer hello with/without keys and inside a SEALED inner hello; (b) reference lists (missing, repeated, 127 entries, naming ECH); (c) every length field of plain/sealed/garbage hellos set to {0, true-1, true+1, max} and all pairs of fields; the message cut at every byte; (d) first record of every content type x length {0,1,5}, declared lengths up to 65535; (e) after an accepted / passed-through hello: every record over 7 content types x 5 lengths in either direction, all ordered pairs, ServerHello/HRR cut at every byte, length lies, split at every 3rd offset, illegal declared lengths written in 40 kB pieces, 3000 tiny records per call; (f) after HRR: records of every content type x length 0/1/2 before the second hello, the second hello with a first fragment of 0..4 bytes, second hello cut at every byte, every length field mutated, extra extensions. Oracles: no panic (recovered), NewConn consumes at most 6x(64 KiB+4) bytes plus one record of the first flight before it decides, no call returns 0,nil without consulting the transport, bytes allocated by the calls <= 88x the bytes moved + 12 records per call + 1 record per input record (TotalAlloc delta), heap retained by the Conn after the calls <= 8 x max(record, hello up to 64 KiB) + 16 KiB (measured with forced GC, GOMAXPROCS=1, harness-held bytes subtracted, confirmed by re-execution), no call longer than 20 s. distinct = distinct case indexes with distinct bytes")
 	r.Assume("byte noise outside the grammar is not explored (that would be fuzzing, another family)", "memory bound applies to what the Conn retains after a call returns; a single Write call may transiently hold the caller's own buffer")
 	generate(r.Thorough(), func(k kase) {
 		key := string(k.First)
